@@ -148,7 +148,7 @@ fn check_pair(rep: &mut Report, a: &Rect, b: &Rect, r: &Rect, r2: &Rect, r_empty
     // commutativity: as pixel sets always, as structs when non-empty
     let geo2_empty = r2.w == 0 || r2.h == 0;
     if geo_empty != geo2_empty || (!geo_empty && r != r2) {
-        fail_pair(rep, "not-commutative", "a∩b≠b∩a", a, b, format!("a.intersect(b) = {} but b.intersect(a) = {} for a = {}, b = {}", rs(r), rs(r2), rs(a), rs(b)), scale);
+        fail_pair(rep, "not-commutative", "commuted-result-differs", a, b, format!("a.intersect(b) = {} but b.intersect(a) = {} for a = {}, b = {}", rs(r), rs(r2), rs(a), rs(b)), scale);
     }
     m.is_some()
 }
